@@ -267,6 +267,10 @@ def execute(case):
                         if not bool(ok.all()):
                             bad = ~ok
                             zero_side = bool(((a[bad] == 0) | (b[bad] == 0)).all())
+                            w_here = torch.tensor(np.asarray(spec['terms'][n]['weights'], dtype=np.float64)).reshape(a.shape)
+                            # ... or every disagreeing entry is the derivative w.r.t. a weight entry that is exactly 0 (the part of
+                            # the iterate it would feed is structurally zero, so fixed-point sees only part of its influence)
+                            zero_side = zero_side or bool((w_here[bad] == 0).all())
                             fp = 'fixed-point' in (base_cfg['method'], cfg['method']) and base_cfg['method'] != cfg['method']
                             has_zero_w = any((np.asarray(t['weights'], dtype=np.float64) == 0).any() for t in spec['terms'].values())
                             if not jp and zero_side and fp and has_zero_w:
